@@ -28,6 +28,7 @@ def check(res):
     if assum: res.trusted.append("Print Assumptions: " + "; ".join("%s: %s" % kv for kv in assum.items()))
     cases = [(s, dict(kind="generator-history", **m)) for s, m in progs.generator_history_programs(seed, 600 if tier == "quick" else 20000)]
     cases += [(s, dict(kind="consumer", **m)) for s, m in progs.consumer_programs()]
+    cases += [(s, dict(kind="laziness", **m)) for s, m in progs.laziness_programs()]
     srcs = [c[0] for c in cases]
     impl = pydiff.run_impl(srcs); ref = pydiff.run_ref(srcs)
     mism = []; nontrivial = 0
